@@ -466,6 +466,10 @@ func dbgCfg(variant string, hist bool, maxCmds int, invs ...string) string {
 	fmt.Fprintf(&b, "SPECIFICATION Spec\nCONSTANTS Variant = \"%s\" RecordHist = %s MaxCmds = %d\nCONSTANT Threads <- RThreads\nCONSTANT Prog <- RProg\nCONSTANT Lines <- RLines\nCHECK_DEADLOCK FALSE\n",
 		variant, strings.ToUpper(strconv.FormatBool(hist)), maxCmds)
 	for _, inv := range invs {
+		if inv == "VIEW" { // search as if the history variables were not there
+			b.WriteString("VIEW view\n")
+			continue
+		}
 		if inv == "StopReleasesAll" { // an action property
 			fmt.Fprintf(&b, "PROPERTY %s\n", inv)
 			continue
@@ -689,11 +693,11 @@ func C15(r *ev.Run) {
 	//    of the pinned code is refuted (lost wake-up, breakpoints ignored while stepping over)
 	cmds := pick(tier, 4, 5)
 	jobs := []*MCJob{
-		{Name: "code", Files: map[string]string{"MCDbgRun.tla": mod1, "run.cfg": dbgCfg("code", false, cmds, "TypeOK", "NoLostWakeup", "ReportedIsSuspended", "BreakpointsSuspend", "StopReleasesAll")},
+		{Name: "code", Files: map[string]string{"MCDbgRun.tla": mod1, "run.cfg": dbgCfg("code", false, cmds, "TypeOK", "NoLostWakeup", "ContinueReleases", "ReportedIsSuspended", "BreakpointsSuspend", "StopReleasesAll")},
 			Opt: tlc.Options{Module: "MCDbgRun", Config: "run.cfg", Timeout: 30 * time.Minute}},
-		{Name: "code-2threads", Files: map[string]string{"MCDbgRun.tla": mod2, "run.cfg": dbgCfg("code", false, pick(tier, 2, 3), "TypeOK", "NoLostWakeup", "ReportedIsSuspended", "BreakpointsSuspend", "StopReleasesAll")},
+		{Name: "code-2threads", Files: map[string]string{"MCDbgRun.tla": mod2, "run.cfg": dbgCfg("code", false, pick(tier, 2, 3), "TypeOK", "NoLostWakeup", "ContinueReleases", "ReportedIsSuspended", "BreakpointsSuspend", "StopReleasesAll")},
 			Opt: tlc.Options{Module: "MCDbgRun", Config: "run.cfg", Timeout: 30 * time.Minute}},
-		{Name: "found-lost", Files: map[string]string{"MCDbgRun.tla": mod1, "run.cfg": dbgCfg("found", true, 3, "ExportLost", "NoLostWakeup")},
+		{Name: "found-lost", Files: map[string]string{"MCDbgRun.tla": mod1, "run.cfg": dbgCfg("found", true, 3, "VIEW", "ExportLost", "NoLostWakeup")},
 			Opt: tlc.Options{Module: "MCDbgRun", Config: "run.cfg", Timeout: 30 * time.Minute, Workers: 1}},
 		{Name: "found-bp", Files: map[string]string{"MCDbgRun.tla": mod1, "run.cfg": dbgCfg("found", false, 3, "BreakpointsSuspend")},
 			Opt: tlc.Options{Module: "MCDbgRun", Config: "run.cfg", Timeout: 30 * time.Minute}},
@@ -719,8 +723,10 @@ func C15(r *ev.Run) {
 	}
 	modE := renderDbgMC(evisits, c15ErrLines)
 	jobs = append(jobs,
-		&MCJob{Name: "code-error", Files: map[string]string{"MCDbgRun.tla": modE, "run.cfg": dbgCfg("code", false, cmds, "TypeOK", "NoLostWakeup", "ReportedIsSuspended", "BreakpointsSuspend", "StopReleasesAll")},
+		&MCJob{Name: "code-error", Files: map[string]string{"MCDbgRun.tla": modE, "run.cfg": dbgCfg("code", false, cmds, "TypeOK", "NoLostWakeup", "ContinueReleases", "ReportedIsSuspended", "BreakpointsSuspend", "StopReleasesAll")},
 			Opt: tlc.Options{Module: "MCDbgRun", Config: "run.cfg", Timeout: 30 * time.Minute}},
+		&MCJob{Name: "bogus-owed", Files: map[string]string{"MCDbgRun.tla": modE, "run.cfg": dbgCfg("bogus", true, 4, "VIEW", "ExportOwed", "ContinueReleases")},
+			Opt: tlc.Options{Module: "MCDbgRun", Config: "run.cfg", Timeout: 10 * time.Minute, Workers: 1}},
 		&MCJob{Name: "sim-error", Files: map[string]string{"MCDbgRun.tla": modE, "run.cfg": dbgCfg("code", true, 9, "Export")},
 			Opt: tlc.Options{Module: "MCDbgRun", Config: "run.cfg", Timeout: 30 * time.Minute, Workers: 1,
 				Args: []string{"-simulate", fmt.Sprintf("num=%d", pick(tier, 200, 2000)), "-depth", "400", "-seed", strconv.FormatInt(r.Seed+2, 10)}}})
@@ -764,6 +770,22 @@ func C15(r *ev.Run) {
 			report("lost-wakeup-schedule", 1, steps, fr)
 			if fr.drift != "" {
 				r.Drift("the wake-up losing schedule cannot be forced: " + fr.drift)
+				break
+			}
+		}
+	}
+	// the schedule on which the pinned code consumed a continue command: a thread which passes an error upwards was marked
+	// as suspended without waiting, the continue addressed to it was then eaten by its next real suspension
+	if j := byName["bogus-owed"]; j.Res == nil || !strings.Contains(j.Res.Violated, "ContinueReleases") && !strings.Contains(j.Res.Violated, "ExportOwed") {
+		r.Inconclusive("self-test failed: the model which marks a running thread as suspended keeps ContinueReleases: " + j.Res.Describe())
+		return
+	} else if bs := j.Res.Printed("BEHAVIOUR"); len(bs) > 0 {
+		steps := parseDbgBehaviour(bs[0])
+		for rep := 0; rep < pick(tier, 5, 30); rep++ {
+			fr := followDebugger([]string{c15ErrProg}, evisits, steps, false)
+			report("consumed-continue-schedule", 1, steps, fr)
+			if fr.drift != "" {
+				r.Drift("the continue consuming schedule cannot be forced: " + fr.drift)
 				break
 			}
 		}
